@@ -182,6 +182,25 @@ fn duration_cases(rng: &mut Rng, tu: &TimeUnits, n_random: usize) -> Vec<MCase> 
         .iter()
         .map(|s| s.to_string())
         .collect();
+    // near misses of the unit spellings the converter in use knows: one letter more, one letter less, doubled
+    let known: Vec<&str> = tu.keys.iter().map(|(k, _)| k.as_str()).collect();
+    let mut near: Vec<String> = Vec::new();
+    for k in &known {
+        near.push(format!("{k}s"));
+        near.push(format!("{k}{k}"));
+        if k.chars().count() > 1 {
+            let mut c: Vec<char> = k.chars().collect();
+            c.pop();
+            near.push(c.into_iter().collect());
+        }
+    }
+    near.sort();
+    near.dedup();
+    for n in near {
+        if !known.contains(&n.as_str()) && !n.is_empty() {
+            outside.push(format!("500 {n}"));
+        }
+    }
     if !tu.keys.iter().any(|(k, _)| k == "m") {
         outside.push("5 m".into());
     }
@@ -557,6 +576,51 @@ fn composed_time(ctx: &mut Ctx, cfg: &Cfg) {
     }
 }
 
+/// the mapping form `time: {prep: .., cook: ..}`: each part that is present has to be a readable duration, otherwise the
+/// whole value is refused (warning, accessor gives nothing)
+fn time_mapping(ctx: &mut Ctx, cfg: &Cfg) {
+    let vals: [(&str, Option<u32>); 5] = [("1h30m", Some(90)), ("45", Some(45)), ("until golden", None), ("-5", None), ("4294967296", None)];
+    let conv = cfg.parser.converter();
+    for p in [None, Some(0usize), Some(1), Some(2), Some(3), Some(4)] {
+        for c in [None, Some(0usize), Some(1), Some(2), Some(3), Some(4)] {
+            if p.is_none() && c.is_none() {
+                continue;
+            }
+            for block in [false, true] {
+                let mut parts: Vec<String> = Vec::new();
+                if let Some(i) = p {
+                    parts.push(format!("prep: \"{}\"", vals[i].0));
+                }
+                if let Some(i) = c {
+                    parts.push(format!("cook: \"{}\"", vals[i].0));
+                }
+                let input = if block { format!("---\ntime:\n  {}\n---\nstep\n", parts.join("\n  ")) } else { format!("---\ntime: {{ {} }}\n---\nstep\n", parts.join(", ")) };
+                let case = Case::new("metadata", input.as_str(), Extensions::all().bits(), cfg.name).with(json!({"form": "time_mapping"}));
+                ctx.begin(&case);
+                let Ok(r) = crate::core::guarded(|| cfg.parser.parse(&input)) else { continue };
+                let Some(rec) = r.output() else { continue };
+                let (pp, cc) = (p.map(|i| vals[i].1), c.map(|i| vals[i].1));
+                let refused = pp == Some(None) || cc == Some(None);
+                let want = if refused { None } else { Some(RecipeTime::Composed { prep_time: pp.flatten(), cook_time: cc.flatten() }) };
+                let warned = r.report().warnings().any(|w| w.message.contains("time"));
+                match crate::core::guarded(|| rec.metadata.time(conv)) {
+                    Err(pn) => ctx.panic_violation(&case, "Metadata::time", pn),
+                    Ok(got) => {
+                        if format!("{got:?}") != format!("{want:?}") {
+                            ctx.violation(&case, "metadata", "time_mapping|wrong_result", format!("[{}] Metadata::time gives {got:?}, the documented reading is {want:?}", cfg.name));
+                        } else if refused && !warned {
+                            ctx.violation(&case, "metadata", "time_mapping|outside_form_no_warning", format!("[{}] a part of the mapping is not a duration but nothing warns about `time`", cfg.name));
+                        } else {
+                            ctx.count("form:time_mapping");
+                            ctx.nontrivial(&case);
+                        }
+                    }
+                }
+            }
+        }
+    }
+}
+
 /// a caller's metadata validator that switches the standard checks off for ONE key must not change how the other
 /// standard keys of the same front matter are read
 fn validator_for_one_key(ctx: &mut Ctx, cfg: &Cfg) {
@@ -619,6 +683,7 @@ pub fn run(ctx: &mut Ctx) {
         let _ = cfg.tu.label;
         if ctx.shard == 0 {
             composed_time(ctx, cfg);
+            time_mapping(ctx, cfg);
             validator_for_one_key(ctx, cfg);
         }
         let mut rng = Rng::new(ctx.seed ^ crate::core::hash64(cfg.name.as_bytes()) ^ ctx.shard as u64);
